@@ -33,6 +33,11 @@ func init() {
 		Assumptions: commonAssumptions,
 		Rules: []Rule{{"nilderef", ruleNilDeref}, {"nil-element", ruleNilProducer}, {"support-currentPage", ruleSupportCurrentPage}, {"bounds", ruleBounds}, {"divzero", ruleDivZero}, {"typeassert", ruleTypeAssert}, {"explicit-panic", rulePanicCalls}, {"support-framerate", ruleSupportFramerate}, {"loops", ruleLoops}},
 	})
+	register(&PropSpec{ID: "C04",
+		Explanation: "Structural agreement clauses of the SSA/ASS codec: (a) every style column name is bound to the same ssaStyle field by the Format-line builder (updateFormat), the row writer (string) and the row reader (newSSAStyleFromString), event columns likewise (string / newSSAEventFromString / the Format list of WriteToSSA) and script-info names (bytes / parse); the model converters are mutually inverse (style ↔ StyleAttributes, script info ↔ Metadata); (b) the literal the row writer prints for a true boolean and for Marked is one the reader takes as true; (c) section headers written are sections read; (d) colour prefix and radix agree. Tables are extracted from the SSA switch arms and stores of /repo on every run. Not decided: Format-permutation behaviour, text splitting, idempotent rewrite.",
+		Assumptions: commonAssumptions,
+		Rules: []Rule{{"columns", ruleSSAColumns}, {"literals", ruleSSALiterals}},
+	})
 	register(&PropSpec{ID: "C05",
 		Explanation: "Structural agreement clauses of the EBU STL codec, decided by evaluating constants and literal tables of /repo and comparing sibling implementations: (T3) the 1024-byte GSI and 128-byte TTI layouts — writer part widths and reader slice offsets extracted per field — agree field by field, sum to the block sizes and do not overlap; (T2) every character the writer tables encode is decoded back to itself by the reader table, printable ASCII the writer passes through is decoded as itself, no table has duplicate keys or values; (T4) justification code maps are mutually inverse, frame-rate table rows are 8-byte keys with positive rates, STL and TTML language tables cover the same languages; (A5) GSI ↔ Metadata wiring agrees in both directions; every division by the frame rate is guarded. Not decided: timecode quantisation, diacritic composition, style runs, teletext-vs-open display-standard behaviour.",
 		Assumptions: commonAssumptions,
